@@ -42,6 +42,22 @@ def gen_history(rng, tier):
         k = rng.choice([4, 4, 8, 8, 12, 16])
         k = min(k, max(4, (total // len(clusters)) * 2 // 4 * 4))
         ops.append('addcluster %d %d %d ?' % (c, k, rng.randint(1, 9)))
+    if not ordered and rng.random() < 0.15:
+        # use up every proxy, then force same-host replacements and allocate again with fresh spares on the largest host
+        big = max(set(hosts.values()), key=lambda h: sum(1 for q in proxies if hosts[q] == h))
+        for c in clusters[:1]:
+            ops.append('addnodes %d %d ?' % (c, 4 * 8))
+            ops.append('addnodes %d %d ?' % (c, 4))
+        for k in range(rng.randint(1, 3)):
+            q = 70 + k
+            ops.append('addproxy %d %d -' % (q, big)); hosts[q] = big; proxies.append(q)
+            ops.append('replace %d 0 ?' % rng.choice(proxies[:max(1, len(proxies) - 4)]))
+        for k in range(rng.randint(2, 5)):
+            q = 80 + k
+            hq = big if k < 3 else rng.choice(list(set(hosts.values())))
+            ops.append('addproxy %d %d -' % (q, hq)); hosts[q] = hq; proxies.append(q)
+        ops.append('addnodes %d 4 ?' % clusters[0])
+        ops.append('addcluster 3 4 1 ?')
     n = rng.randint(10, 45 if tier == 'quick' else 70)
     epochs_seen = list(range(1, 30))
     for _ in range(n):
@@ -128,6 +144,11 @@ def scenario_histories():
              + ' ; replace 7 0 ? ; replace 8 0 ? ; replace 1 0 ? ; replace 2 0 ? ; commitnth 1 0 1 ; commitnth 1 0 1',
         base + ' ; addcluster 1 4 1 ? ; addfail 1 1 0 ; addfail 1 1 0 ; addfail 1 2 1000 ; getfail 2000 2 ; getfail 1000 2 ; getfail 1000 1 ; addproxy 1 10 - ; getfail 9000 1',
         base + ' ; addcluster 1 8 1 ? ; recover 100 ; forcebump 50 ; forcebump 500 ; restore 3 ; restore 14 ; recover 0',
+        # skewed hosts A:8 B:4 C:4 fully used; the only spare is on A, so a failed B proxy is (legitimately) replaced on its partner's host,
+        # which creates a same-host chunk (self link); later spares make A the largest host again and a scale-out allocates
+        'H 0 ; ' + ' ; '.join('addproxy %d %d -' % (i, 10 if i <= 8 else (11 if i <= 12 else 12)) for i in range(1, 17))
+        + ' ; addcluster 1 32 1 ? ; addproxy 17 10 - ; replace 9 0 ? ; addproxy 18 10 - ; addproxy 19 10 - ; addproxy 20 11 - ; addproxy 21 12 - ; addnodes 1 4 ?'
+        + ' ; addproxy 22 10 - ; addproxy 23 10 - ; addproxy 24 12 - ; addproxy 25 11 - ; addcluster 2 4 1 ?',
         # failover without a spare, then a spare is registered and the failover is retried
         'H 0 ; addproxy 1 10 - ; addproxy 2 11 - ; addcluster 1 4 1 ? ; replace 1 0 ? ; addproxy 3 12 - ; replace 1 0 ? ; replace 2 1 ? ; addproxy 4 10 - ; replace 2 2 ?',
         # scale-in freeing two chunks; an earlier source chunk drains first and a commit asks to clear free nodes mid-migration
